@@ -385,9 +385,8 @@ pub fn families() -> Vec<Box<dyn Family>> {
                 let mut rng = Rng::for_case(cfg.seed, "c05.distinct_boundary", idx);
                 let bound = if cfg.tiny { 8 } else { [256usize, 1024, 4096, 65536][(idx % 4) as usize] };
                 let n = bound - 1 - rng.below(bound.min(400) / 4 + 1);
-                let fresh = rng.range(bound - n + 1, (bound - n + 1) + 300);
-                let drop = rng.below(100.min(n));
-                let (a, b) = text_gen::distinct_lines_pair(&mut rng, n, drop, fresh);
+                let fresh = (rng.range(bound - n + 1, (bound - n + 1) + 300)).min(n);
+                let (a, b) = text_gen::distinct_lines_pair(&mut rng, n, fresh, fresh);
                 let alg = ALGS[(idx / 4 % 2) as usize];
                 out.sample(|| format!("alg={} {} distinct old lines, {} fresh lines (boundary {})", alg_name(alg), n, fresh, bound));
                 out.nontrivial(&(alg_name(alg), &a, &b));
